@@ -251,6 +251,61 @@ def run_entry_case(case):
   return (1, 1, 1, out)
 
 
+# ---- (2b) the configured maximum frame length -------------------------------------------------------------------------
+def configured_limit_case(limit):
+  """PICKLE_RECEIVER_MAX_LENGTH is configured BEFORE the listener module is imported (the daemons read carbon.conf first and
+  import carbon.protocols while building the service; emulated by reloading the module after the setting is in place).
+  A well-formed frame of exactly the configured length is ingested and leaves the connection open; only a length prefix
+  above it may close the connection."""
+  settings = env.boot()
+  env.reset_state()
+  import importlib
+  settings['PICKLE_RECEIVER_MAX_LENGTH'] = limit
+  import carbon.protocols
+  importlib.reload(carbon.protocols)
+  out = []
+  try:
+    # a frame whose body is exactly `limit` bytes: one datapoint with a padded metric name
+    probe = wire.pickle_frame([('x', 1, 1.0)], 2)[4:]
+    pad = limit - len(probe)
+    if pad < 0:
+      raise core.HarnessError('limit %d too small for a datapoint frame' % limit)
+    name = 'x' + 'y' * pad
+    body = wire.pickle_frame([(name, 1, 1.0)], 2)[4:]
+    while len(body) != limit:       # the length field of the string opcode may change size
+      name = name[:len(name) - (len(body) - limit)] if len(body) > limit else name + 'y' * (limit - len(body))
+      body = wire.pickle_frame([(name, 1, 1.0)], 2)[4:]
+    small = wire.pickle_frame([('a', 2, 2.0)], 2)
+    for what, stream, want, closes in (
+        ('frame of exactly the configured %d bytes between two small frames' % limit,
+         small + wire.struct.pack('!I', len(body)) + body + small, [('a', 2.0, 2.0), (name, 1.0, 1.0), ('a', 2.0, 2.0)], False),
+        ('length prefix of configured maximum + 1 after a small frame', small + wire.struct.pack('!I', limit + 1) + b'x' * 16,
+         [('a', 2.0, 2.0)], True)):
+      for cut in (None, 4 + len(small) + 2):
+        rig = wire.Rig('pickle')
+        exc = None
+        for chunk in ([stream] if cut is None else [stream[:cut], stream[cut:]]):
+          if rig.closing:
+            break       # a transport that was told to close delivers no further reads
+          exc = exc or rig.feed(chunk)
+        got = [(m, float(t), float(v)) for m, t, v in rig.delivered]
+        closed = rig.closing
+        rig.close()
+        rep = {'configured_limit': limit, 'case': what}
+        if exc is not None:
+          out.append(('escape:pickle:%s' % type(exc).__name__, 'PICKLE_RECEIVER_MAX_LENGTH=%d, %s: %r escaped' % (limit, what, exc), rep))
+        elif got != want:
+          out.append(('neighbours-harmed:pickle', 'PICKLE_RECEIVER_MAX_LENGTH=%d, %s: delivered %d datapoints %r..., expected %d' % (
+            limit, what, len(got), [g[0][:12] for g in got][:3], len(want)), rep))
+        elif closed and not closes:
+          # (a frame above the configured maximum MAY close the connection; the statement does not demand that it does)
+          out.append(('closed:pickle', 'PICKLE_RECEIVER_MAX_LENGTH=%d, %s: connection was closed' % (limit, what), rep))
+  finally:
+    settings['PICKLE_RECEIVER_MAX_LENGTH'] = 2 ** 20
+    importlib.reload(carbon.protocols)
+  return (4, 4, 4, out[:2])
+
+
 # ---- (3) opcode programs ------------------------------------------------------------------------------------------------
 def run_opcode_shard(arg):
   first, length = arg
@@ -438,6 +493,14 @@ def run(ctx):
       passed += 1
     for key, what, rep in bad:
       ctx.violation(key, what, rep)
+  limits = (64, 4096, 3 * 2 ** 20)
+  for limit, (st, tr, ex, bad) in zip(limits, core.pmap(configured_limit_case, limits, fresh=True)):
+    S += st
+    T += tr
+    E += ex
+    for key, what, rep in bad:
+      ctx.violation(key, what, rep)
+  ctx.add(configured_frame_limits=list(limits))
   length = ctx.pick(3, 4)
   ores = core.pmap(run_opcode_shard, [(i, length) for i in range(len(pk.OPCODES))], chunksize=1)
   progs = 0
@@ -462,6 +525,13 @@ def run(ctx):
 def replay(path):
   body = json.load(open(path))
   rep = body['replay']
+  if 'configured_limit' in rep:
+    st, tr, ex, bad = configured_limit_case(rep['configured_limit'])
+    for key, what, _ in bad:
+      print('oracle: [%s] %s' % (key, what))
+    if not bad:
+      print('oracle: holds')
+    return 1 if bad else 0
   kind = rep['kind']
   if kind == 'pickle-program':
     r = segx.Receiver('pickle')
